@@ -76,7 +76,7 @@ def build(L, d, kind):
         L.SDwritedata(s, i32arr([0, 0, 0]), None, i32arr([10, 12, 9]), vals(DFNT["uint8"], 1080, 8))
         L.SDendaccess(s)
     if kind == "big":
-        L.SDendaccess(mk_sds(L, sd, b"huge", DFNT["int32"], [3, 100003], 9))
+        L.SDendaccess(mk_sds(L, sd, b"huge", DFNT["int32"], [3, 300001], 9))
     L.SDsetattr(sd, b"title", DFNT["char8"], 11, b"repack test")
     L.SDend(sd)
     fid = L.Hopen(p, DFACC_RDWR, 0)
@@ -116,6 +116,20 @@ def build(L, d, kind):
             L.VSsetattr(vs, -1, b"vattr", DFNT["int32"], 1, struct.pack("=i", 77 + i))
             L.VSsetattr(vs, 1, b"fattr", DFNT["char8"], 2, b"xy")
             refs[nm] = L.VSQueryref(vs)
+            L.VSdetach(vs)
+        if kind == "big":
+            # a Vdata of more than 1 MiB whose record count is not a multiple of the tools' buffer
+            vs = L.VSattach(fid, -1, b"w")
+            L.VSsetname(vs, b"bigtable")
+            L.VSsetclass(vs, b"records")
+            L.VSfdefine(vs, b"a", DFNT["int16"], 1)
+            L.VSfdefine(vs, b"b", DFNT["float32"], 2)
+            L.VSsetfields(vs, b"a,b")
+            nrec = 150001
+            rec = b"".join(struct.pack("=hff", k % 30000, (k % 1000) * 0.5, (k % 777) * 2.0) for k in range(nrec))
+            bb = CBuf(len(rec), rec)
+            L.VSwrite(vs, bb.ptr, nrec, 0)
+            bb.free()
             L.VSdetach(vs)
         inner = L.Vattach(fid, -1, b"w")
         L.Vsetname(inner, b"inner")
